@@ -630,3 +630,92 @@ func VHHistory() {
 	t := NewWith[int, int](v.CfgOr("m", 3), vl.Cmp)
 	maps.VMapHistory(t, maps.VKind{Name: "BTree", SortedKeys: true, Inv: func() { VInv(t) }})
 }
+
+// vDeepCheck: whole-structure observers on a large tree of concrete shape and symbolic content.
+func vDeepCheck(t *Tree[int, int], ek, ev []int) {
+	VInv(t)
+	v.BeginOp(true, t)
+	keys, vals := t.Keys(), t.Values()
+	v.EndOp()
+	v.Assert(len(keys) == len(ek), "C01,C15:keys-length")
+	v.Assert(len(vals) == len(ek), "C01,C15:values-length")
+	if len(keys) == len(ek) && len(vals) == len(ek) {
+		for i := range ek {
+			v.Assert(keys[i] == ek[i], "C01,C02:keys-in-order")
+			v.Assert(vals[i] == ev[i], "C01:values-position-aligned")
+		}
+	}
+	v.Assert(t.Size() == len(ek), "C01,C15:size")
+	// a full forward and a full backward pass of a fresh iterator
+	v.BeginOp(true, t)
+	it := t.Iterator()
+	i := 0
+	for it.Next() {
+		if i < len(ek) {
+			v.Assert(v.And(it.Key() == ek[i], it.Value() == ev[i]), "C08,C02:forward-iteration")
+		}
+		i++
+	}
+	v.Assert(i == len(ek), "C08:forward-iteration-count")
+	v.Assert(!it.Next(), "C08:next-saturates-at-end")
+	for it.Prev() {
+		i--
+		if i >= 0 && i < len(ek) {
+			v.Assert(v.And(it.Key() == ek[i], it.Value() == ev[i]), "C08,C02:backward-iteration")
+		}
+	}
+	v.Assert(i == 0, "C08:backward-iteration-count")
+	v.EndOp()
+}
+
+func vDeepKeys(n int) ([]int, []int) {
+	ek, ev := make([]int, n), make([]int, n)
+	for i := 0; i < n; i++ {
+		ek[i], ev[i] = v.Int("k"), v.Int("x")
+		if i > 0 {
+			v.Assume(vl.Less(ek[i-1], ek[i]))
+		}
+	}
+	return ek, ev
+}
+
+// vUniform builds a subtree with `levels` levels in which every node holds e entries (e+1 children above the leaves).
+func vUniform(parent *Node[int, int], levels, e int, seq *[]*Entry[int, int]) *Node[int, int] {
+	n := &Node[int, int]{Parent: parent}
+	for i := 0; i <= e; i++ {
+		if levels > 1 {
+			n.Children = append(n.Children, vUniform(n, levels-1, e, seq))
+		}
+		if i < e {
+			en := &Entry[int, int]{}
+			n.Entries = append(n.Entries, en)
+			*seq = append(*seq, en)
+		}
+	}
+	return n
+}
+
+// VHDeep: Keys/Values/full iteration/Height on the uniform B-tree of order m with L levels and e entries per node.
+func VHDeep() {
+	m, L, e := v.Cfg("m"), v.Cfg("L"), v.Cfg("e")
+	var seq []*Entry[int, int]
+	t := &Tree[int, int]{Comparator: vl.Cmp, m: m}
+	t.Root = vUniform(nil, L, e, &seq)
+	t.size = len(seq)
+	ek, ev := vDeepKeys(len(seq))
+	for i, en := range seq {
+		en.Key, en.Value = ek[i], ev[i]
+	}
+	vDeepCheck(t, ek, ev)
+	v.Assert(t.Height() == L, "C07:height-is-number-of-levels")
+	if k, ok := t.LeftKey().(int); ok {
+		v.Assert(k == ek[0], "C02:leftkey-is-least")
+	} else {
+		v.Assert(false, "C02:leftkey-missing")
+	}
+	if k, ok := t.RightKey().(int); ok {
+		v.Assert(k == ek[len(ek)-1], "C02:rightkey-is-greatest")
+	} else {
+		v.Assert(false, "C02:rightkey-missing")
+	}
+}
